@@ -32,6 +32,8 @@ ASSUMPTIONS = [
     "mDNS: an advertisement is 'processed' when the repository's own 0.5 s resolve timer fires and loads it from the cache",
     "when the processing instant equals a waiter's deadline both outcomes are legitimate (recorded)",
     "BLE waiters are started with the lower-case id form the controller uses as its key",
+    "mDNS-based waiters (IP, CoAP, aggregate via mDNS) are started with lower-, upper- or mixed-case spellings of the id: the"
+    " mDNS async_find lower-cases its argument, so the spelling must not matter there",
 ]
 SHARDS = {"quick": 16, "thorough": 16}
 TIMEOUT = {"quick": 900, "thorough": 7200}
@@ -128,6 +130,8 @@ class Backend:
         self.cache = CharacteristicCacheMemory()
         self.delay = 0.0 if kind == "ble" else 0.5
         self.names = {ID_X: "Dev X", ID_Y: "Dev Y"}
+        # the caller's spelling of the id (HomeKit ids are conventionally written in upper case): ids are case-insensitive
+        self.find_case = rng.choice(["lower", "lower", "upper", "mixed"])
         if kind in ("ip", "coap", "aggregate"):
             self.azc = StubAsyncZeroconf()
         if kind == "ip":
@@ -182,6 +186,15 @@ class Backend:
             target.load_pairing("alias-" + dev_id, pd)
 
     def find(self, dev_id, timeout):
+        # the caller's spelling is varied only where the library itself makes the look-up case-insensitive (the mDNS-based
+        # async_find lower-cases its argument; BleController.async_find compares the id verbatim)
+        via_ble = self.kind == "ble" or (self.kind == "aggregate" and self.via == "ble")
+        if via_ble:
+            pass
+        elif self.find_case == "upper":
+            dev_id = dev_id.upper()
+        elif self.find_case == "mixed":
+            dev_id = "".join(ch.upper() if i % 2 else ch for i, ch in enumerate(dev_id))
         return self.c.async_find(dev_id, timeout)
 
     def advertise(self, dev_id):
@@ -434,7 +447,8 @@ async def txt_case(ctx, idx) -> None:
         txt["zz"] = rng.randbytes(5)
     elif mutation == "float":
         txt[[x for x in keys if x.lower() == "c#"][0]] = b"3.0"
-    pool = ["10.0.0.5", "192.168.1.9", "169.254.7.7", "0.0.0.0", "fd00::5", "fe80::1", "::", "2001:db8::7"]
+    # (IPv4 texts that sort AFTER an IPv6 text and the other way round: the order must come from the family, not the text)
+    pool = ["10.0.0.5", "192.168.1.9", "169.254.7.7", "0.0.0.0", "fd00::5", "fe80::1", "::", "2001:db8::7", "203.0.113.5", "8.8.8.8", "1234:5678::1", "9.9.9.9"]
     addrs = rng.sample(pool, rng.randint(0, 5))
     name = rng.choice(["Dev", "Küche Lampe", "a.b", "x" * 40])
     port = rng.choice([80, 51826, 65535])
